@@ -22,10 +22,10 @@ SPECS = {
     "C02": pcheck.PSpec(
         "C02",
         clauses=["PackageComplete", "NoResidualDirective", "Compiles", "BookingFault", "OneTree"],
-        profiles={"quick": [("MCQueryGen_core.cfg", None), ("MCQueryGen_schema.cfg", None)],
-                  "thorough": [("MCQueryGen_core_t.cfg", None), ("MCQueryGen_schema_t.cfg", None)]},
+        profiles={"quick": [("MCQueryGen_core.cfg", None), ("MCQueryGen_schema.cfg", None), ("MCQueryGen_fault.cfg", None)],
+                  "thorough": [("MCQueryGen_core_t.cfg", None), ("MCQueryGen_schema_t.cfg", None), ("MCQueryGen_fault_t.cfg", None)]},
         events={"quick": 3, "thorough": 3},
-        cap={"quick": 1000, "thorough": 12000},
+        cap={"quick": 1500, "thorough": 16000},
         nontrivial="translated",
     ),
     "C03": pcheck.PSpec(
@@ -69,8 +69,10 @@ SPECS = {
     "C10": pcheck.PSpec(
         "C10",
         clauses=["Accepts", "Compiles", "BookingFault", "RowsMatch", "SpuriousFault", "FaultMissed", "SchemaMatches", "WarnsIffUndeclared"],
-        profiles={"quick": [("MCQueryGen_types.cfg", None, {"md10": True, "checkwarn": True})],
-                  "thorough": [("MCQueryGen_types_t.cfg", None, {"md10": True, "checkwarn": True})]},
+        profiles={"quick": [("MCQueryGen_types.cfg", None, {"md10": True, "checkwarn": True}),
+                            ("MCQueryGen_typesvec.cfg", None, {"md10": True, "checkwarn": True})],
+                  "thorough": [("MCQueryGen_types_t.cfg", None, {"md10": True, "checkwarn": True}),
+                               ("MCQueryGen_typesvec.cfg", None, {"md10": True, "checkwarn": True})]},
         events={"quick": 8, "thorough": 24},
         cap={"quick": 1000, "thorough": 20000},
     ),
